@@ -289,6 +289,43 @@ def build(run):
         return proved("ast", vcs=n, sample=f"{n} signature functions read counters only through `renumbering`")
     run.add("frame/signature-functions-read-no-raw-counter", frame, kind="proof")
 
+    # ---------------------------------------------------------------- a number pinned by the caller is the object's number, whatever the counters hold
+    def pinned():
+        import inspect as _i
+        m = S.new_mesh()
+        V = ufl.FunctionSpace(m, S.L(ufl.triangle, 1))
+        makers = {"Constant": lambda c: ufl.Constant(m, count=c), "Constant(shape)": lambda c: ufl.Constant(m, (2, 2), count=c), "VectorConstant": lambda c: ufl.VectorConstant(m, count=c),
+                  "TensorConstant": lambda c: ufl.TensorConstant(m, count=c), "Coefficient": lambda c: ufl.Coefficient(V, count=c), "Cofunction": lambda c: ufl.Cofunction(V.dual(), count=c),
+                  "Index": lambda c: Index(count=c), "Label": lambda c: C.Label(count=c), "Matrix": lambda c: ufl.Matrix(V, V, count=c)}
+        # every other callable of the public namespace that accepts a `count` keyword is exercised too, so that a new convenience wrapper is not forgotten
+        known = {ufl.Constant, ufl.VectorConstant, ufl.TensorConstant, ufl.Coefficient, ufl.Cofunction, Index, C.Label, ufl.Matrix}
+        unknown = []
+        for nm, o in vars(ufl).items():
+            if callable(o) and o not in known:
+                try:
+                    if "count" in _i.signature(o).parameters:
+                        unknown.append(nm)
+                except (TypeError, ValueError):
+                    pass
+        n = 0
+        for start in (0, 7, 1000):
+            S.set_counters({k: start for k in S.COUNTER_FAMILIES})
+            for nm, mk in makers.items():
+                for c in (0, 5, 41, 10 ** 6):
+                    o = mk(c)
+                    n += 1
+                    if o.count() != c:
+                        return violated(f"{nm}(..., count={c}) has count {o.count()} when the global counters stand at {start}: the pinned number is ignored, so the relative "
+                                        f"numbering (and the signature) of a form that pins it depends on how many objects were created before",
+                                        replay={"constructor": nm, "count": c, "got": o.count(), "counter_start": start}, reproduced=True, backend="exec")
+            for uid in (0, 3, 999):
+                if ufl.Mesh(S.L(ufl.triangle, 1, (2,)), ufl_id=uid).ufl_id() != uid:
+                    return violated(f"Mesh(..., ufl_id={uid}) ignores the pinned id", reproduced=True, backend="exec")
+                n += 1
+        return proved("exec", vcs=n, sample=f"{len(makers)} constructors x 4 pinned counts x 3 counter states (+ Mesh ufl_id): the pinned number is the object's number"
+                      + (f"; NOT covered (public callables with a `count` parameter unknown to this obligation): {unknown}" if unknown else ""))
+    run.add("frame/pinned-numbers-are-honoured", pinned, kind="values")
+
     # ---------------------------------------------------------------- no unordered iteration on the numbering / signature path
     def unordered():
         """A set-valued expression may only be turned into a sequence (tuple/list/enumerate/for/+) through a sorter."""
